@@ -100,8 +100,14 @@ def check(s, rs, prot, unk, acc, sub):
         acc.violation(ID, sub, case, dict(kind='output-does-not-parse-strictly', rules=rs, what=what, cause=cause,
                                           exc=type(res).__name__ if st == 'exc' else st), observed=repr(out))
         return
+    kinds = set(canon.kind_of(n) for n in canon.iter_nodes(res[1]))
+    # no replacement text of either table contains an unescaped % or a \\begin: a comment or an environment in the output was
+    # opened by an input character that was not neutralised (also a non-ASCII one: full-width and small forms of % { } $ ...)
+    bad_any = sorted(kinds & {'comment', 'environment'})
+    if bad_any and not s.isascii():
+        acc.violation(ID, sub, case, dict(kind='active-character-not-neutralised', node=bad_any, rules=rs, input='non-ascii'), observed=repr(out))
+        return
     if s.isascii():
-        kinds = set(canon.kind_of(n) for n in canon.iter_nodes(res[1]))
         bad = sorted(kinds & {'comment', 'environment', 'math'})
         if bad:
             acc.violation(ID, sub, case, dict(kind='active-character-not-neutralised', node=bad, rules=rs), observed=repr(out))
@@ -122,14 +128,14 @@ def check(s, rs, prot, unk, acc, sub):
 
 def plan(tier):
     b = BOUNDS[tier]
-    shards = [('full', i) for i in range(len(ACTIVE))] + [('deep', i, j) for i in range(len(ACTIVE)) for j in range(2)] + [('odd', 0)]
+    shards = [('full', i) for i in range(len(ACTIVE))] + [('deep', i, j) for i in range(len(ACTIVE)) for j in range(2)] + [('odd', 0), ('compat', 0)]
     shards += [('table', rs, k) for rs in RULESETS for k in range(8)]
     return dict(
         shards=shards, bounds=dict(b, active=ACTIVE, special=[hex(ord(c)) for c in SPECIAL]),
         rule=('full: every string of length <= NF over the 20 LaTeX-active/relevant ASCII characters x 2 rule sets x 4 brace-protection schemes x 5 '
               'unknown-character policies; deep: every string of length <= ND x 2 rule sets at default options; table: every code point with a built-in '
               'rule (both tables) alone, between a/backslash/brace neighbours and next to special representatives (control, combining, astral, '
-              'unassigned, DEL), x 4 protections x 5 policies.  non-trivial = encodes whose output differs from the input.'),
+              'unassigned, DEL), x 4 protections x 5 policies; compat: every code point whose compatibility (NFKC) form contains a LaTeX-active ASCII character, in 7 frames x all configurations; no comment or environment node for any input.  non-trivial = encodes whose output differs from the input.'),
         assumptions=['strict parse under the default walker context decides "parseable"; for non-ASCII input only parseability and ASCII-ness are demanded'],
     )
 
@@ -166,6 +172,14 @@ def run_shard(shard, tier, acc):
                     for prot in PROTS:
                         for unk in UNKS:
                             check(s, rs, prot, unk, acc, 'odd')
+    elif shard[0] == 'compat':
+        from mc.checks.c04 import compat_active_chars
+        for c in compat_active_chars():
+            for s in (c, 'a' + c + 'b', c + c, c + '\n', '{' + c + '}', c + '}', '$' + c):
+                for rs in RULESETS:
+                    for prot in PROTS:
+                        for unk in UNKS:
+                            check(s, rs, prot, unk, acc, 'compat')
     else:
         rs, k = shard[1], shard[2]
         cps = sorted(table(rs).keys())[k::8]
